@@ -2,7 +2,7 @@
 # tools/seedtest2.sh <property> <label> [tier] [extra ./check args...]
 #   like seedtest.sh but works on a scratch worktree of /repo (VERIF_REPO), so /repo itself is never touched
 id=$1; lab=$2; tier=${3:-quick}; shift; shift; shift
-src=/tmp/seed/$id/seed_out
+src=${SEED_SRC:-/tmp/seed}/$id/seed_out
 dst=/verif/seeded/$id-$lab
 wt=/tmp/seedrepo_${id}_${lab}
 git -C /repo worktree add -q --detach $wt HEAD || exit 2
